@@ -84,6 +84,13 @@ var classExprs = []struct{ expr, class string }{
 	{"Function.prototype.call.call(1)", "TypeError"}, {"Function.prototype.bind.call({})", "TypeError"}, {"[].reduce(function(){})", "TypeError"}, {"[1].forEach(1)", "TypeError"}, {"[1].sort(1)", "TypeError"},
 	{"Date.prototype.getTime.call({})", "TypeError"}, {"Number.prototype.valueOf.call('x')", "TypeError"}, {"Boolean.prototype.toString.call(1)", "TypeError"}, {"RegExp.prototype.exec.call({}, 'a')", "TypeError"}, {"new Date(NaN).toISOString()", "RangeError"},
 	{"Object.freeze(1)", "TypeError"}, {"'x' instanceof String.prototype", "TypeError"}, {"({}).x.y", "TypeError"}, {"(function(){ 'x'.y.z })()", "TypeError"},
+	// refused [[Put]] / [[Delete]] with Throw = true (15.4.4.x on frozen and sealed objects, 8.12.5, 8.12.7)
+	{"Object.freeze([1,2]).push(3)", "TypeError"}, {"Object.freeze([1,2]).pop()", "TypeError"}, {"Object.freeze([1,2]).shift()", "TypeError"}, {"Object.freeze([1,2]).reverse()", "TypeError"},
+	{"Array.prototype.push.call(Object.freeze({}), 1)", "TypeError"}, {"Object.seal([1]).unshift(0)", "TypeError"},
+	// operators and statements that raise without a call or a member access
+	{"o instanceof {}", "TypeError"}, {"(function(){ function F(){} F.prototype = 3; return o instanceof F })()", "TypeError"}, {"(function(){ with (undefined) {} })()", "TypeError"}, {"(function(){ with (null) {} })()", "TypeError"},
+	{"({valueOf: function(){ return {} }, toString: function(){ return {} }}) + 1", "TypeError"}, {"String({toString: function(){ return {} }, valueOf: function(){ return [] }})", "TypeError"},
+	{"throw new Error('')", "Error"}, {"throw new RangeError('')", "RangeError"}, {"throw TypeError('')", "TypeError"}, {"throw new Error({toString: function(){ return '' }})", "Error"},
 	{"throw new EvalError('e')", "EvalError"}, {"throw new URIError('u')", "URIError"}, {"throw new SyntaxError('s')", "SyntaxError"}, {"throw new Error('plain')", "Error"}, {"throw new TypeError()", "TypeError"},
 }
 
@@ -130,7 +137,8 @@ func checkClass(c *run.Ctx, in Input) {
 		c.Fail("panic", "class:"+in.Expr, in, "value or error", fmt.Sprint(out.Panic), out.Stack)
 		return
 	}
-	explicitNoMessage := in.Expr == "throw new TypeError()"
+	// the script itself asked for no message, or for the empty one: message is then the (inherited or own) empty string
+	explicitNoMessage := in.Expr == "throw new TypeError()" || strings.Contains(in.Expr, "Error('')") || strings.Contains(in.Expr, "return '' }})")
 	want := in.Class + "|true|true|string|true|true|true|[object Error]"
 	if explicitNoMessage {
 		want = in.Class + "|true|true|string|true|true|false|[object Error]"
@@ -241,12 +249,24 @@ func traceCase(r *gen.Rand) Input {
 	callSites := make([]site, n+1)   // callSites[i] = where function i calls function i+1 (0 = top level)
 	natives := make([][]string, n+1) // frames between i and i+1 (native mediators, eval code)
 	// raising construct
-	raiseKinds := []struct{ pre, text, class string }{
-		{"", "nope_%d", "ReferenceError"},
-		{"", "null.x", "TypeError"},
-		{"throw new ", "Error('boom')", "Error"},
-		{"throw new ", "RangeError('r')", "RangeError"},
-		{"return ", "undefined_fn_%d()", "ReferenceError"},
+	raiseKinds := []struct {
+		pre, text, class string
+		off              int  // column of the reported position within text
+		noPos            bool // known deviation: the error has no position of its own
+	}{
+		{"", "nope_%d", "ReferenceError", 0, false},
+		{"", "null.x", "TypeError", 0, false},
+		{"throw new ", "Error('boom')", "Error", 0, false},
+		{"throw new ", "RangeError('r')", "RangeError", 0, false},
+		{"return ", "undefined_fn_%d()", "ReferenceError", 0, false},
+		// errors of operators and statements (no call, no member access): the position is that of the expression
+		{"return ", "'a' in 2", "TypeError", 0, false},
+		{"return ", "Obj0 instanceof 2", "TypeError", 0, false},
+		{"return ", "Obj0 instanceof Obj0", "TypeError", 0, false},
+		{"return ", "Obj0 instanceof NoProto", "TypeError", 0, false},
+		{"", "with (undefined) {}", "TypeError", 6, false},
+		{"", "with (null) { 1 }", "TypeError", 6, false},
+		{"return ", "NoPrim + 1", "TypeError", 0, true},
 	}
 	rk := raiseKinds[r.Intn(len(raiseKinds))]
 	raiseText := rk.text
@@ -297,6 +317,7 @@ func traceCase(r *gen.Rand) Input {
 		return p + nm + "(" + a + ")", len(p)
 	}
 	addLine("function idf(x) { return x }")
+	addLine("var Obj0 = {}; function NoProto() {} NoProto.prototype = 3; var NoPrim = {valueOf: function () { return {} }, toString: function () { return {} }};")
 	addLine("var ge = eval;")
 	for i := n - 1; i >= 0; i-- {
 		nm := names[i]
@@ -335,7 +356,7 @@ func traceCase(r *gen.Rand) Input {
 		for _, bl := range bodyLines {
 			ln := addLine(bl)
 			if i == n-1 {
-				col := len(bl) - len(strings.TrimLeft(bl, " ")) + len(rk.pre) + 1
+				col := len(bl) - len(strings.TrimLeft(bl, " ")) + len(rk.pre) + 1 + rk.off
 				raiseSite = site{line: ln, col: col}
 			} else {
 				// recompute callee offset
@@ -400,6 +421,16 @@ func traceCase(r *gen.Rand) Input {
 	want = append(want, fr(labels[n-1], raiseSite))
 	dev := append([]string{}, want...)
 	deviates := false
+	if rk.noPos {
+		// known deviation: a TypeError raised by ToPrimitive has no position; the frame shows the
+		// function's last call site, and the innermost function here has made no call
+		deviates = true
+		if labels[n-1] == "" {
+			dev[0] = "at <unknown>"
+		} else {
+			dev[0] = "at " + labels[n-1] + " (<unknown>)"
+		}
+	}
 	for i := n - 1; i >= 0; i-- {
 		want = append(want, natives[i]...)
 		dev = append(dev, natives[i]...)
@@ -558,6 +589,8 @@ func syntaxCase(r *gen.Rand) Input {
 	var line, col int
 	offenders := []struct{ before, tok, after string }{
 		{"var x = ", ";", ""}, {"var x = ", "@", ";"}, {"x = (1 + ", ")", ";"}, {"f(1, ", ",", " 2);"}, {"var ", "1", "a = 2;"}, {"if (x) ", "else", " y;"}, {"x = [1, 2", ";", ""}, {"a b", "", ""}, {"var y = 3 ", "4", ";"}, {"x = {a: 1 }", "}", ";"}, {"function ", "(", ") {}"}, {"x = 'abc", "", ""},
+		// a token that cannot be a property name (the parser consumes it before judging it)
+		{"x = {a: 1, ", ",", " b: 2};"}, {"x = { ", "+", ": 1 };"}, {"x = {", "(", " };"}, {"x = {a: 1, ", ",", ""}, {"x = {get ", "(", ") {}};"},
 	}
 	o := offenders[r.Intn(len(offenders))]
 	for i := 0; i < nl; i++ {
